@@ -392,7 +392,7 @@ func c04Response(r *Run, c *c04ctx) {
 		{},
 	}
 	c.faults(r, stream, func(desc string, faulty []byte) {
-		for _, rt := range rts[:2+len(faulty)%5] {
+		for _, rt := range rts[:2+len(faulty)%6] {
 			rt := rt
 			c.decodes++
 			c.guarded("client-response", faulty, func() {
